@@ -95,6 +95,8 @@ def patterns(e, acc=None):
         for k in kids:
             acc.add(f"{t}>{k['t']}")
             patterns(k, acc)
+        if t == "Quotient" and "Sum" in kinds_in(e["a"]):
+            acc.add("Quotient>>Sum")       # a sum anywhere in a numerator (it expands to a sum)
         if t == "Power" and e["b"]["t"] == "Const" and e["b"]["v"].get("d") == 1:
             n = e["b"]["v"]["n"]
             acc.add(f"Power^{'neg' if n < 0 else ('0' if n == 0 else ('1' if n == 1 else 'pos'))}:{e['a']['t']}")
